@@ -136,7 +136,7 @@ def expectations(world, side, victim):
         data = world.content(victim['c'])
         maybe[hkey(side.hash_type, data)] = data
     elif name == 'add_pack':
-        for cidx in victim['cs']:
+        for cidx in list(victim['cs']) + [c for batch in victim.get('pending', []) for c in batch]:
             data = world.content(cidx)
             maybe[hkey(side.hash_type, data)] = data
         for i in range(victim.get('mass', 0)):
